@@ -259,6 +259,11 @@ func (c *FCGIClient) writePairs(recType uint8, pairs map[string]string) error {
 		if m > maxWrite {
 			// param data size exceed 65535 bytes"
 			vl := maxWrite - 8 - len(k)
+			if vl < 0 {
+				// not even the name fits into a record: the pair
+				// cannot be sent at all (vl used to go negative here)
+				continue
+			}
 			v = v[:vl]
 		}
 		n := encodeSize(b, uint32(len(k)))
